@@ -44,7 +44,7 @@ ASSUMPTIONS = [
 ]
 SELFTEST_HASHSEEDS = ["0", "4242"]
 
-STORE_BACKED = ("turtle", "xml", "json-ld", "n3", "rdflib_graph", "endpoint_on", "shape_map_local")
+STORE_BACKED = ("turtle", "xml", "json-ld", "n3", "rdflib_graph", "endpoint_on", "shape_map_local", "gz_turtle_rel")
 EP_URL = "http://sim.test/sparql"
 
 
@@ -54,7 +54,8 @@ EP_URL = "http://sim.test/sparql"
 
 def gen_case(rng, tier):
     channel = rng.choice(["nt", "nt", "tsv", "turtle_iter", "turtle", "turtle", "xml", "json-ld", "rdflib_graph", "rdflib_graph",
-                          "endpoint_on", "endpoint_off", "endpoint_off", "endpoint_deep", "endpoint_deep", "endpoint_mixed", "nt_mixed", "nt_mixed", "shape_map_local", "zip_nt"])
+                          "endpoint_on", "endpoint_off", "endpoint_off", "endpoint_deep", "endpoint_deep", "endpoint_mixed", "nt_mixed", "nt_mixed", "shape_map_local", "zip_nt",
+                          "xz_nt", "gz_nt", "gz_turtle_rel"])
     endpoint = channel.startswith("endpoint")
     kinds = ("node", "str", "int", "iri", "iri2") if (endpoint or channel == "turtle_iter") else ("node", "str", "int", "lang", "date", "iri", "iri2", "cdt")
     n_nodes = rng.choice([3, 4, 6, 8, 10]) if tier == "quick" else rng.choice([3, 4, 6, 8, 10, 16, 24])
@@ -64,7 +65,9 @@ def gen_case(rng, tier):
                             bnodes=(endpoint and rng.random() < 0.3),   # answers with bnode bindings (labels are the endpoint's own)
                             prop_namespaces=((gen.EX, "http://vocab.org/t#", "http://terms.org/u/") if clash else
                                              rng.choice([(gen.EX,), (gen.EX, gen.OTHER)])),
-                            density=rng.choice([0.5, 0.7, 0.9]), twins=0 if endpoint else 0.06)
+                            density=rng.choice([0.5, 0.7, 0.9]), twins=0 if endpoint else 0.06,
+                            # class names with non-ASCII characters where bytes are decoded by the library itself
+                            odd_classes=0.6 if channel in ("zip_nt", "xz_nt", "gz_nt") else 0.1)
     tp = gen.CUSTOM_TYPE if rng.random() < 0.12 else gen.RDF_TYPE
     triples = gen.retype(gen.ensure_class(triples), tp)
     allow_sm = channel in ("nt", "endpoint_on", "endpoint_off", "shape_map_local", "rdflib_graph")
@@ -85,6 +88,8 @@ def gen_case(rng, tier):
         target = {"shape_map_raw": gen.gen_shape_map(rng, triples, type_prop=tp), "all_classes_mode": True}
     elif channel == "shape_map_local":
         target = {"shape_map_raw": gen.gen_shape_map(rng, triples, type_prop=tp)}
+    elif channel == "gz_turtle_rel":
+        target = {"all_classes_mode": True}
     else:
         target = gen.gen_target(rng, triples, allow_shape_map=allow_sm, type_prop=tp)
     options = gen.gen_options(rng, allow_inverse=True)
@@ -127,8 +132,12 @@ def materialise(case):
     """the exact bytes every child will read (computed in the parent only)"""
     triples = [gen.T(t) for t in case["graph"]]
     ch = case["channel"]
-    if ch in ("nt", "nt_mixed", "zip_nt", "shape_map_local", "endpoint_on", "endpoint_off", "endpoint_deep", "endpoint_mixed", "rdflib_graph"):
+    if ch in ("nt", "nt_mixed", "zip_nt", "xz_nt", "gz_nt", "shape_map_local", "endpoint_on", "endpoint_off", "endpoint_deep", "endpoint_mixed", "rdflib_graph"):
         return gen.to_nt(triples)
+    if ch == "gz_turtle_rel":
+        # a compressed Turtle document without @base whose class IRIs are relative: they are resolved against the
+        # working directory, which all interpreters of a scenario share
+        return gen.to_nt(triples).replace("<" + gen.EX + "C", "<#C")
     if ch == "tsv":
         return gen.to_tsv(triples)
     if ch == "turtle_iter":
@@ -152,7 +161,8 @@ def generate(rng, tier, index):
     hs = [0] + sorted(rng.sample(range(1, 4000000), k - 1))
     return {"cases": cases, "hashseeds": hs, "rand_seeds": [rng.randrange(1 << 30) for _ in hs],
             "garbage": [rng.randrange(0, 20000) for _ in hs],
-            "optimize": [False] + [rng.random() < 0.4 for _ in hs[1:]]}
+            "optimize": [False] + [rng.random() < 0.4 for _ in hs[1:]],
+            "ascii_locale": [False] + [rng.random() < 0.3 for _ in hs[1:]]}
 
 
 # ---------------------------------------------------------------------------
@@ -180,6 +190,22 @@ def _case_kwargs(case, sim):
             z.writestr("__MACOSX/", "")
         kw["graph_file_input"] = p
         kw["compression_mode"] = "zip"
+    elif ch in ("xz_nt", "gz_nt"):
+        import gzip
+        import xz
+        p = sim.path("case.nt." + ch[:2])
+        with (xz.open(p, "wb") if ch == "xz_nt" else gzip.open(p, "wb")) as f:
+            f.write(doc.encode("utf-8"))
+        kw["graph_file_input"] = p
+        kw["compression_mode"] = ch[:2]
+    elif ch == "gz_turtle_rel":
+        import gzip
+        p = sim.path("case.ttl.gz")
+        with gzip.open(p, "wb") as f:
+            f.write(doc.encode("utf-8"))
+        kw["graph_file_input"] = p
+        kw["compression_mode"] = "gz"
+        kw["input_format"] = "turtle"
     elif ch in ("nt", "shape_map_local", "nt_mixed"):
         kw["raw_graph"] = doc
     elif ch == "tsv":
@@ -212,6 +238,10 @@ def child_main():
     from ..compare import profile_groups, shacl_digest
     req = json.load(sys.stdin)
     random.seed(req["rand_seed"])
+    import locale
+    # an interpreter whose default text encoding is not UTF-8 (LC_ALL=C, UTF-8 mode off): only what the unchanged
+    # library reads and writes with an explicit encoding is asked of it (no output file, no targets handed over as files)
+    ascii_process = not sys.flags.utf8_mode and locale.getpreferredencoding(False).lower().replace("-", "") != "utf8"
     junk = [object() for _ in range(req["garbage"])] + [{"k%d" % i: i} for i in range(req["garbage"] // 7)]
     set_knob(NEVER_FLUSH)
     scratch = tempfile.mkdtemp(prefix="dsim-c19-")
@@ -219,6 +249,9 @@ def child_main():
     try:
         for case in req["cases"]:
             res = {}
+            if ascii_process and case["target"].get("_via_file"):
+                out.append({"shex": {"kind": "skipped"}, "shacl": {"kind": "skipped"}})
+                continue
             for fmt in (SHEXC, SHACL):
                 sim = Sim(scratch)
                 with sim:
@@ -231,10 +264,11 @@ def child_main():
                             res["shex"] = {"kind": "ok", "text": text,
                                            "ties": "ALL" if ties == ALL_TIED else sorted([list(g) for g in ties])}
                             # the same document through the file channel, in this very interpreter
-                            fp = sim.path("child_out.shex")
-                            sh.shex_graph(output_file=fp)
-                            with open(fp, encoding="utf-8") as f:
-                                res["shex"]["file_equals_string"] = (f.read() == text)
+                            if not ascii_process:
+                                fp = sim.path("child_out.shex")
+                                sh.shex_graph(output_file=fp)
+                                with open(fp, encoding="utf-8") as f:
+                                    res["shex"]["file_equals_string"] = (f.read() == text)
                         else:
                             try:
                                 res["shacl"] = {"kind": "ok", "digest": shacl_digest(text)}
@@ -253,8 +287,10 @@ def child_main():
 # parent
 # ---------------------------------------------------------------------------
 
-def _spawn(cases, hashseed, rand_seed, garbage, optimize=False):
+def _spawn(cases, hashseed, rand_seed, garbage, optimize=False, ascii_locale=False):
     env = dict(os.environ)
+    if ascii_locale:
+        env.update({"LC_ALL": "C", "LANG": "C", "PYTHONUTF8": "0", "PYTHONCOERCECLOCALE": "0"})
     env["PYTHONHASHSEED"] = str(hashseed)
     env["DSIM_NO_REEXEC"] = "1"
     env["SHEXER_VERIF"] = "1"
@@ -285,8 +321,11 @@ def execute(scen, scratch):
     per_seed = []
     for k, (h, rs, gb) in enumerate(zip(scen["hashseeds"], scen["rand_seeds"], scen["garbage"])):
         opt = bool(scen.get("optimize", [])[k:k + 1] and scen["optimize"][k])
-        per_seed.append(_spawn(cases, h, rs, gb, optimize=opt))
+        asc = bool(scen.get("ascii_locale", [])[k:k + 1] and scen["ascii_locale"][k])
+        per_seed.append(_spawn(cases, h, rs, gb, optimize=opt, ascii_locale=asc))
         sim.probes["interpreters_started"] += 1
+        if asc:
+            sim.probes["interpreters_ascii_locale"] += 1
         if opt:
             sim.probes["interpreters_optimised"] += 1
     nontrivial_cases = 0
@@ -301,6 +340,8 @@ def execute(scen, scratch):
         shex_differs = False
         for k, r in enumerate(results[1:], 1):
             a, b = ref["shex"], r["shex"]
+            if b["kind"] == "skipped":
+                continue
             if a["kind"] == "exc" or b["kind"] == "exc":
                 if (a["kind"], a.get("exc")) != (b["kind"], b.get("exc")):
                     violations.append(violation("shexc_bytes", "exception_parity", [ci, case["channel"], a.get("exc"), b.get("exc"), scen["hashseeds"][k]]))
@@ -334,6 +375,8 @@ def execute(scen, scratch):
                                          "beyond_ties": d_tied.to_json() if d_tied else None}, sig))
         for k, r in enumerate(results[1:], 1):
             a, b = ref["shacl"], r["shacl"]
+            if b["kind"] == "skipped":
+                continue
             if a["kind"] == "exc" or b["kind"] == "exc":
                 if (a["kind"], a.get("exc")) != (b["kind"], b.get("exc")):
                     violations.append(violation("shacl_iso", "exception_parity", [ci, case["channel"], a.get("exc"), b.get("exc")]))
@@ -381,7 +424,7 @@ def shrink(scen):
     if len(scen["hashseeds"]) > 2:
         for i in range(1, len(scen["hashseeds"])):
             c = copy.deepcopy(scen)
-            for key in ("hashseeds", "rand_seeds", "garbage", "optimize"):
+            for key in ("hashseeds", "rand_seeds", "garbage", "optimize", "ascii_locale"):
                 if key in c:
                     c[key] = [c[key][0], c[key][i]]
             yield c
